@@ -232,3 +232,86 @@ pub fn run(entry: &str, tpl: &str, input: &[u8]) -> Outcome {
         _ => panic!("unknown decoder entry {entry}"),
     }
 }
+
+// ------------------------------------------------------------------------------------ text
+
+/// SessionDescription::parse and everything the stack derives from a parsed description.
+pub fn sdp(input: &str) -> Outcome {
+    use rustrtc::sdp::*;
+    let (mut out, d) = decode("SessionDescription::parse", || SessionDescription::parse(SdpType::Offer, input).map_err(|e| e.to_string()));
+    op(&mut out, "parse_bundle_mid_info", || {
+        let _ = parse_bundle_mid_info(input);
+    });
+    op(&mut out, "modify_sdp_direction", || {
+        let _ = modify_sdp_direction(input, "sendonly");
+    });
+    let Some(d) = d else { return out };
+    ops_on_sdp(&mut out, &d);
+    out
+}
+
+pub fn ops_on_sdp(out: &mut Outcome, d: &rustrtc::sdp::SessionDescription) {
+    use rustrtc::sdp::*;
+    op(out, "to_sdp_string+reparse", || {
+        let s = d.to_sdp_string();
+        let _ = SessionDescription::parse(SdpType::Answer, &s);
+    });
+    op(out, "dtls_fingerprint", || {
+        let _ = d.dtls_fingerprint();
+    });
+    op(out, "capabilities", || {
+        let _ = d.to_video_capabilities();
+        let _ = d.to_audio_capabilities();
+        let _ = d.to_image_capabilities();
+    });
+    for (i, m) in d.media_sections.iter().enumerate() {
+        op(out, &format!("media[{i}] attribute parsers"), || {
+            let _ = m.get_crypto_attributes();
+            let _ = m.get_extmap_id("urn:ietf:params:rtp-hdrext:sdes:mid");
+            let attrs: Vec<(String, Option<String>)> = m.attributes.iter().map(|a| (a.key.clone(), a.value.clone())).collect();
+            let _ = rustrtc::rtx::extract_rtx_apt_map(&attrs);
+            for a in &m.attributes {
+                let v = a.value.clone().unwrap_or_default();
+                match a.key.as_str() {
+                    "rid" => {
+                        let _ = Rid::parse(&v);
+                    }
+                    "simulcast" => {
+                        let _ = Simulcast::parse(&v);
+                    }
+                    "crypto" => {
+                        let _ = CryptoAttribute::parse(&v);
+                    }
+                    "fingerprint" => {
+                        let _ = SdpFingerprint::parse(&v);
+                    }
+                    "candidate" => {
+                        let _ = rustrtc::IceCandidate::from_sdp(&v);
+                    }
+                    "fmtp" => {
+                        let _ = rustrtc::rtx::parse_apt(&v);
+                    }
+                    _ => {}
+                }
+            }
+        });
+    }
+}
+
+pub fn candidate(input: &str) -> Outcome {
+    let (mut out, c) = decode("IceCandidate::from_sdp", || rustrtc::IceCandidate::from_sdp(input).map_err(|e| e.to_string()));
+    if let Some(c) = c {
+        op(&mut out, "to_sdp+reparse", || {
+            let _ = rustrtc::IceCandidate::from_sdp(&c.to_sdp());
+        });
+    }
+    out
+}
+
+pub fn run_text(entry: &str, input: &str) -> Outcome {
+    match entry {
+        "sdp" => sdp(input),
+        "candidate" => candidate(input),
+        _ => panic!("unknown text decoder entry {entry}"),
+    }
+}
